@@ -29,7 +29,7 @@ attribute [local grind ←] List.Nodup.erase nodup_filter
 
 theorem invA_sTry {s : State} {t : Nat} {v : Nat} {r : Nat} (hk : InvK s) (hr : InvR s) (hi : InvA s) (hpc : s.pc t = .sTry v r) : InvA (stepSTry s t v r) := by
   obtain ⟨hk1, hk2, hk3, hk4, hk5, hk6, hk7, hk8⟩ := hk
-  obtain ⟨hr1, hr2, hr3, hr4, hr5, hr6, hr7⟩ := hr
+  obtain ⟨hr1, hr2, hr3, hr4, hr5, hr6, hr7, hr8⟩ := hr
   obtain ⟨h1, h2, h3, h4, h5, h6, h7, h8⟩ := hi
   unfold stepSTry
   repeat' split
@@ -37,7 +37,7 @@ theorem invA_sTry {s : State} {t : Nat} {v : Nat} {r : Nat} (hk : InvK s) (hr : 
 
 theorem invA_sReg {s : State} {t : Nat} {v : Nat} {r : Nat} (hk : InvK s) (hr : InvR s) (hi : InvA s) (hpc : s.pc t = .sReg v r) : InvA (stepSReg s t v r) := by
   obtain ⟨hk1, hk2, hk3, hk4, hk5, hk6, hk7, hk8⟩ := hk
-  obtain ⟨hr1, hr2, hr3, hr4, hr5, hr6, hr7⟩ := hr
+  obtain ⟨hr1, hr2, hr3, hr4, hr5, hr6, hr7, hr8⟩ := hr
   obtain ⟨h1, h2, h3, h4, h5, h6, h7, h8⟩ := hi
   unfold stepSReg
   repeat' split
@@ -45,7 +45,7 @@ theorem invA_sReg {s : State} {t : Nat} {v : Nat} {r : Nat} (hk : InvK s) (hr : 
 
 theorem invA_sWait {s : State} {t : Nat} {v : Nat} {r : Nat} (hk : InvK s) (hr : InvR s) (hi : InvA s) (hpc : s.pc t = .sWait v r) : InvA (stepSWait s t v r) := by
   obtain ⟨hk1, hk2, hk3, hk4, hk5, hk6, hk7, hk8⟩ := hk
-  obtain ⟨hr1, hr2, hr3, hr4, hr5, hr6, hr7⟩ := hr
+  obtain ⟨hr1, hr2, hr3, hr4, hr5, hr6, hr7, hr8⟩ := hr
   obtain ⟨h1, h2, h3, h4, h5, h6, h7, h8⟩ := hi
   unfold stepSWait
   repeat' split
@@ -53,7 +53,7 @@ theorem invA_sWait {s : State} {t : Nat} {v : Nat} {r : Nat} (hk : InvK s) (hr :
 
 theorem invA_sUnl {s : State} {t : Nat} {v : Nat} {r : Nat} {c : Bool} (hk : InvK s) (hr : InvR s) (hi : InvA s) (hpc : s.pc t = .sUnl v r c) : InvA (stepSUnl s t v r c) := by
   obtain ⟨hk1, hk2, hk3, hk4, hk5, hk6, hk7, hk8⟩ := hk
-  obtain ⟨hr1, hr2, hr3, hr4, hr5, hr6, hr7⟩ := hr
+  obtain ⟨hr1, hr2, hr3, hr4, hr5, hr6, hr7, hr8⟩ := hr
   obtain ⟨h1, h2, h3, h4, h5, h6, h7, h8⟩ := hi
   unfold stepSUnl
   repeat' split
@@ -61,7 +61,7 @@ theorem invA_sUnl {s : State} {t : Nat} {v : Nat} {r : Nat} {c : Bool} (hk : Inv
 
 theorem invA_tsTry {s : State} {t : Nat} {v : Nat} (hk : InvK s) (hr : InvR s) (hi : InvA s) (hpc : s.pc t = .tsTry v) : InvA (stepTsTry s t v) := by
   obtain ⟨hk1, hk2, hk3, hk4, hk5, hk6, hk7, hk8⟩ := hk
-  obtain ⟨hr1, hr2, hr3, hr4, hr5, hr6, hr7⟩ := hr
+  obtain ⟨hr1, hr2, hr3, hr4, hr5, hr6, hr7, hr8⟩ := hr
   obtain ⟨h1, h2, h3, h4, h5, h6, h7, h8⟩ := hi
   unfold stepTsTry
   repeat' split
@@ -69,7 +69,7 @@ theorem invA_tsTry {s : State} {t : Nat} {v : Nat} (hk : InvK s) (hr : InvR s) (
 
 theorem invA_rTry {s : State} {t : Nat} {r : Nat} (hk : InvK s) (hr : InvR s) (hi : InvA s) (hpc : s.pc t = .rTry r) : InvA (stepRTry s t r) := by
   obtain ⟨hk1, hk2, hk3, hk4, hk5, hk6, hk7, hk8⟩ := hk
-  obtain ⟨hr1, hr2, hr3, hr4, hr5, hr6, hr7⟩ := hr
+  obtain ⟨hr1, hr2, hr3, hr4, hr5, hr6, hr7, hr8⟩ := hr
   obtain ⟨h1, h2, h3, h4, h5, h6, h7, h8⟩ := hi
   unfold stepRTry
   repeat' split
@@ -77,7 +77,7 @@ theorem invA_rTry {s : State} {t : Nat} {r : Nat} (hk : InvK s) (hr : InvR s) (h
 
 theorem invA_rReg {s : State} {t : Nat} {r : Nat} (hk : InvK s) (hr : InvR s) (hi : InvA s) (hpc : s.pc t = .rReg r) : InvA (stepRReg s t r) := by
   obtain ⟨hk1, hk2, hk3, hk4, hk5, hk6, hk7, hk8⟩ := hk
-  obtain ⟨hr1, hr2, hr3, hr4, hr5, hr6, hr7⟩ := hr
+  obtain ⟨hr1, hr2, hr3, hr4, hr5, hr6, hr7, hr8⟩ := hr
   obtain ⟨h1, h2, h3, h4, h5, h6, h7, h8⟩ := hi
   unfold stepRReg
   repeat' split
@@ -85,7 +85,7 @@ theorem invA_rReg {s : State} {t : Nat} {r : Nat} (hk : InvK s) (hr : InvR s) (h
 
 theorem invA_rWait {s : State} {t : Nat} {r : Nat} (hk : InvK s) (hr : InvR s) (hi : InvA s) (hpc : s.pc t = .rWait r) : InvA (stepRWait s t r) := by
   obtain ⟨hk1, hk2, hk3, hk4, hk5, hk6, hk7, hk8⟩ := hk
-  obtain ⟨hr1, hr2, hr3, hr4, hr5, hr6, hr7⟩ := hr
+  obtain ⟨hr1, hr2, hr3, hr4, hr5, hr6, hr7, hr8⟩ := hr
   obtain ⟨h1, h2, h3, h4, h5, h6, h7, h8⟩ := hi
   unfold stepRWait
   repeat' split
@@ -93,7 +93,7 @@ theorem invA_rWait {s : State} {t : Nat} {r : Nat} (hk : InvK s) (hr : InvR s) (
 
 theorem invA_rUnl {s : State} {t : Nat} {r : Nat} (hk : InvK s) (hr : InvR s) (hi : InvA s) (hpc : s.pc t = .rUnl r) : InvA (stepRUnl s t r) := by
   obtain ⟨hk1, hk2, hk3, hk4, hk5, hk6, hk7, hk8⟩ := hk
-  obtain ⟨hr1, hr2, hr3, hr4, hr5, hr6, hr7⟩ := hr
+  obtain ⟨hr1, hr2, hr3, hr4, hr5, hr6, hr7, hr8⟩ := hr
   obtain ⟨h1, h2, h3, h4, h5, h6, h7, h8⟩ := hi
   unfold stepRUnl
   repeat' split
@@ -101,7 +101,7 @@ theorem invA_rUnl {s : State} {t : Nat} {r : Nat} (hk : InvK s) (hr : InvR s) (h
 
 theorem invA_trTry {s : State} {t : Nat} (hk : InvK s) (hr : InvR s) (hi : InvA s) (hpc : s.pc t = .trTry) : InvA (stepTrTry s t ) := by
   obtain ⟨hk1, hk2, hk3, hk4, hk5, hk6, hk7, hk8⟩ := hk
-  obtain ⟨hr1, hr2, hr3, hr4, hr5, hr6, hr7⟩ := hr
+  obtain ⟨hr1, hr2, hr3, hr4, hr5, hr6, hr7, hr8⟩ := hr
   obtain ⟨h1, h2, h3, h4, h5, h6, h7, h8⟩ := hi
   unfold stepTrTry
   repeat' split
@@ -109,7 +109,7 @@ theorem invA_trTry {s : State} {t : Nat} (hk : InvK s) (hr : InvR s) (hi : InvA 
 
 theorem invA_toTry {s : State} {t : Nat} {r : Nat} (hk : InvK s) (hr : InvR s) (hi : InvA s) (hpc : s.pc t = .toTry r) : InvA (stepToTry s t r) := by
   obtain ⟨hk1, hk2, hk3, hk4, hk5, hk6, hk7, hk8⟩ := hk
-  obtain ⟨hr1, hr2, hr3, hr4, hr5, hr6, hr7⟩ := hr
+  obtain ⟨hr1, hr2, hr3, hr4, hr5, hr6, hr7, hr8⟩ := hr
   obtain ⟨h1, h2, h3, h4, h5, h6, h7, h8⟩ := hi
   unfold stepToTry
   repeat' split
@@ -117,7 +117,7 @@ theorem invA_toTry {s : State} {t : Nat} {r : Nat} (hk : InvK s) (hr : InvR s) (
 
 theorem invA_toReg {s : State} {t : Nat} {r : Nat} (hk : InvK s) (hr : InvR s) (hi : InvA s) (hpc : s.pc t = .toReg r) : InvA (stepToReg s t r) := by
   obtain ⟨hk1, hk2, hk3, hk4, hk5, hk6, hk7, hk8⟩ := hk
-  obtain ⟨hr1, hr2, hr3, hr4, hr5, hr6, hr7⟩ := hr
+  obtain ⟨hr1, hr2, hr3, hr4, hr5, hr6, hr7, hr8⟩ := hr
   obtain ⟨h1, h2, h3, h4, h5, h6, h7, h8⟩ := hi
   unfold stepToReg
   repeat' split
@@ -125,7 +125,7 @@ theorem invA_toReg {s : State} {t : Nat} {r : Nat} (hk : InvK s) (hr : InvR s) (
 
 theorem invA_toRetry {s : State} {t : Nat} {r : Nat} (hk : InvK s) (hr : InvR s) (hi : InvA s) (hpc : s.pc t = .toRetry r) : InvA (stepToRetry s t r) := by
   obtain ⟨hk1, hk2, hk3, hk4, hk5, hk6, hk7, hk8⟩ := hk
-  obtain ⟨hr1, hr2, hr3, hr4, hr5, hr6, hr7⟩ := hr
+  obtain ⟨hr1, hr2, hr3, hr4, hr5, hr6, hr7, hr8⟩ := hr
   obtain ⟨h1, h2, h3, h4, h5, h6, h7, h8⟩ := hi
   unfold stepToRetry
   repeat' split
@@ -133,7 +133,7 @@ theorem invA_toRetry {s : State} {t : Nat} {r : Nat} (hk : InvK s) (hr : InvR s)
 
 theorem invA_toCas {s : State} {t : Nat} {r : Nat} (hk : InvK s) (hr : InvR s) (hi : InvA s) (hpc : s.pc t = .toCas r) : InvA (stepToCas s t r) := by
   obtain ⟨hk1, hk2, hk3, hk4, hk5, hk6, hk7, hk8⟩ := hk
-  obtain ⟨hr1, hr2, hr3, hr4, hr5, hr6, hr7⟩ := hr
+  obtain ⟨hr1, hr2, hr3, hr4, hr5, hr6, hr7, hr8⟩ := hr
   obtain ⟨h1, h2, h3, h4, h5, h6, h7, h8⟩ := hi
   unfold stepToCas
   repeat' split
@@ -141,7 +141,7 @@ theorem invA_toCas {s : State} {t : Nat} {r : Nat} (hk : InvK s) (hr : InvR s) (
 
 theorem invA_toUnl {s : State} {t : Nat} {r : Nat} (hk : InvK s) (hr : InvR s) (hi : InvA s) (hpc : s.pc t = .toUnl r) : InvA (stepToUnl s t r) := by
   obtain ⟨hk1, hk2, hk3, hk4, hk5, hk6, hk7, hk8⟩ := hk
-  obtain ⟨hr1, hr2, hr3, hr4, hr5, hr6, hr7⟩ := hr
+  obtain ⟨hr1, hr2, hr3, hr4, hr5, hr6, hr7, hr8⟩ := hr
   obtain ⟨h1, h2, h3, h4, h5, h6, h7, h8⟩ := hi
   unfold stepToUnl
   repeat' split
@@ -149,7 +149,7 @@ theorem invA_toUnl {s : State} {t : Nat} {r : Nat} (hk : InvK s) (hr : InvR s) (
 
 theorem invA_toFin {s : State} {t : Nat} {r : Nat} (hk : InvK s) (hr : InvR s) (hi : InvA s) (hpc : s.pc t = .toFin r) : InvA (stepToFin s t r) := by
   obtain ⟨hk1, hk2, hk3, hk4, hk5, hk6, hk7, hk8⟩ := hk
-  obtain ⟨hr1, hr2, hr3, hr4, hr5, hr6, hr7⟩ := hr
+  obtain ⟨hr1, hr2, hr3, hr4, hr5, hr6, hr7, hr8⟩ := hr
   obtain ⟨h1, h2, h3, h4, h5, h6, h7, h8⟩ := hi
   unfold stepToFin
   repeat' split
@@ -157,7 +157,7 @@ theorem invA_toFin {s : State} {t : Nat} {r : Nat} (hk : InvK s) (hr : InvR s) (
 
 theorem invA_asTry {s : State} {t : Nat} {v : Nat} {r : Nat} (hk : InvK s) (hr : InvR s) (hi : InvA s) (hpc : s.pc t = .asTry v r) : InvA (stepAsTry s t v r) := by
   obtain ⟨hk1, hk2, hk3, hk4, hk5, hk6, hk7, hk8⟩ := hk
-  obtain ⟨hr1, hr2, hr3, hr4, hr5, hr6, hr7⟩ := hr
+  obtain ⟨hr1, hr2, hr3, hr4, hr5, hr6, hr7, hr8⟩ := hr
   obtain ⟨h1, h2, h3, h4, h5, h6, h7, h8⟩ := hi
   unfold stepAsTry
   repeat' split
@@ -165,7 +165,7 @@ theorem invA_asTry {s : State} {t : Nat} {v : Nat} {r : Nat} (hk : InvK s) (hr :
 
 theorem invA_asReg {s : State} {t : Nat} {v : Nat} {r : Nat} (hk : InvK s) (hr : InvR s) (hi : InvA s) (hpc : s.pc t = .asReg v r) : InvA (stepAsReg s t v r) := by
   obtain ⟨hk1, hk2, hk3, hk4, hk5, hk6, hk7, hk8⟩ := hk
-  obtain ⟨hr1, hr2, hr3, hr4, hr5, hr6, hr7⟩ := hr
+  obtain ⟨hr1, hr2, hr3, hr4, hr5, hr6, hr7, hr8⟩ := hr
   obtain ⟨h1, h2, h3, h4, h5, h6, h7, h8⟩ := hi
   unfold stepAsReg
   repeat' split
@@ -173,7 +173,7 @@ theorem invA_asReg {s : State} {t : Nat} {v : Nat} {r : Nat} (hk : InvK s) (hr :
 
 theorem invA_asUnl {s : State} {t : Nat} {v : Nat} {r : Nat} {c : Bool} (hk : InvK s) (hr : InvR s) (hi : InvA s) (hpc : s.pc t = .asUnl v r c) : InvA (stepAsUnl s t v r c) := by
   obtain ⟨hk1, hk2, hk3, hk4, hk5, hk6, hk7, hk8⟩ := hk
-  obtain ⟨hr1, hr2, hr3, hr4, hr5, hr6, hr7⟩ := hr
+  obtain ⟨hr1, hr2, hr3, hr4, hr5, hr6, hr7, hr8⟩ := hr
   obtain ⟨h1, h2, h3, h4, h5, h6, h7, h8⟩ := hi
   unfold stepAsUnl
   repeat' split
@@ -181,7 +181,7 @@ theorem invA_asUnl {s : State} {t : Nat} {v : Nat} {r : Nat} {c : Bool} (hk : In
 
 theorem invA_asRef {s : State} {t : Nat} {v : Nat} {r : Nat} (hk : InvK s) (hr : InvR s) (hi : InvA s) (hpc : s.pc t = .asRef v r) : InvA (stepAsRef s t v r) := by
   obtain ⟨hk1, hk2, hk3, hk4, hk5, hk6, hk7, hk8⟩ := hk
-  obtain ⟨hr1, hr2, hr3, hr4, hr5, hr6, hr7⟩ := hr
+  obtain ⟨hr1, hr2, hr3, hr4, hr5, hr6, hr7, hr8⟩ := hr
   obtain ⟨h1, h2, h3, h4, h5, h6, h7, h8⟩ := hi
   unfold stepAsRef
   repeat' split
@@ -189,7 +189,7 @@ theorem invA_asRef {s : State} {t : Nat} {v : Nat} {r : Nat} (hk : InvK s) (hr :
 
 theorem invA_fdUnlS {s : State} {t : Nat} {v : Nat} {r : Nat} (hk : InvK s) (hr : InvR s) (hi : InvA s) (hpc : s.pc t = .fdUnlS v r) : InvA (stepFdUnlS s t v r) := by
   obtain ⟨hk1, hk2, hk3, hk4, hk5, hk6, hk7, hk8⟩ := hk
-  obtain ⟨hr1, hr2, hr3, hr4, hr5, hr6, hr7⟩ := hr
+  obtain ⟨hr1, hr2, hr3, hr4, hr5, hr6, hr7, hr8⟩ := hr
   obtain ⟨h1, h2, h3, h4, h5, h6, h7, h8⟩ := hi
   unfold stepFdUnlS
   repeat' split
@@ -197,7 +197,7 @@ theorem invA_fdUnlS {s : State} {t : Nat} {v : Nat} {r : Nat} (hk : InvK s) (hr 
 
 theorem invA_arTry {s : State} {t : Nat} {r : Nat} (hk : InvK s) (hr : InvR s) (hi : InvA s) (hpc : s.pc t = .arTry r) : InvA (stepArTry s t r) := by
   obtain ⟨hk1, hk2, hk3, hk4, hk5, hk6, hk7, hk8⟩ := hk
-  obtain ⟨hr1, hr2, hr3, hr4, hr5, hr6, hr7⟩ := hr
+  obtain ⟨hr1, hr2, hr3, hr4, hr5, hr6, hr7, hr8⟩ := hr
   obtain ⟨h1, h2, h3, h4, h5, h6, h7, h8⟩ := hi
   unfold stepArTry
   repeat' split
@@ -205,7 +205,7 @@ theorem invA_arTry {s : State} {t : Nat} {r : Nat} (hk : InvK s) (hr : InvR s) (
 
 theorem invA_arReg {s : State} {t : Nat} {r : Nat} (hk : InvK s) (hr : InvR s) (hi : InvA s) (hpc : s.pc t = .arReg r) : InvA (stepArReg s t r) := by
   obtain ⟨hk1, hk2, hk3, hk4, hk5, hk6, hk7, hk8⟩ := hk
-  obtain ⟨hr1, hr2, hr3, hr4, hr5, hr6, hr7⟩ := hr
+  obtain ⟨hr1, hr2, hr3, hr4, hr5, hr6, hr7, hr8⟩ := hr
   obtain ⟨h1, h2, h3, h4, h5, h6, h7, h8⟩ := hi
   unfold stepArReg
   repeat' split
@@ -213,7 +213,7 @@ theorem invA_arReg {s : State} {t : Nat} {r : Nat} (hk : InvK s) (hr : InvR s) (
 
 theorem invA_arUnl {s : State} {t : Nat} {r : Nat} (hk : InvK s) (hr : InvR s) (hi : InvA s) (hpc : s.pc t = .arUnl r) : InvA (stepArUnl s t r) := by
   obtain ⟨hk1, hk2, hk3, hk4, hk5, hk6, hk7, hk8⟩ := hk
-  obtain ⟨hr1, hr2, hr3, hr4, hr5, hr6, hr7⟩ := hr
+  obtain ⟨hr1, hr2, hr3, hr4, hr5, hr6, hr7, hr8⟩ := hr
   obtain ⟨h1, h2, h3, h4, h5, h6, h7, h8⟩ := hi
   unfold stepArUnl
   repeat' split
@@ -221,7 +221,7 @@ theorem invA_arUnl {s : State} {t : Nat} {r : Nat} (hk : InvK s) (hr : InvR s) (
 
 theorem invA_fdUnlR {s : State} {t : Nat} {r : Nat} (hk : InvK s) (hr : InvR s) (hi : InvA s) (hpc : s.pc t = .fdUnlR r) : InvA (stepFdUnlR s t r) := by
   obtain ⟨hk1, hk2, hk3, hk4, hk5, hk6, hk7, hk8⟩ := hk
-  obtain ⟨hr1, hr2, hr3, hr4, hr5, hr6, hr7⟩ := hr
+  obtain ⟨hr1, hr2, hr3, hr4, hr5, hr6, hr7, hr8⟩ := hr
   obtain ⟨h1, h2, h3, h4, h5, h6, h7, h8⟩ := hi
   unfold stepFdUnlR
   repeat' split
@@ -229,7 +229,7 @@ theorem invA_fdUnlR {s : State} {t : Nat} {r : Nat} (hk : InvK s) (hr : InvR s) 
 
 theorem invA_hWake {s : State} {t : Nat} {ws : List Nat} (hk : InvK s) (hr : InvR s) (hi : InvA s) (hpc : s.pc t = .hWake ws) : InvA (stepHWake s t ws) := by
   obtain ⟨hk1, hk2, hk3, hk4, hk5, hk6, hk7, hk8⟩ := hk
-  obtain ⟨hr1, hr2, hr3, hr4, hr5, hr6, hr7⟩ := hr
+  obtain ⟨hr1, hr2, hr3, hr4, hr5, hr6, hr7, hr8⟩ := hr
   obtain ⟨h1, h2, h3, h4, h5, h6, h7, h8⟩ := hi
   unfold stepHWake
   repeat' split
@@ -237,7 +237,7 @@ theorem invA_hWake {s : State} {t : Nat} {ws : List Nat} (hk : InvK s) (hr : Inv
 
 theorem invA_sPark {s s' : State} {t : Nat} {v : Nat} {r : Nat} (hk : InvK s) (hr : InvR s) (hi : InvA s) (hpc : s.pc t = .sPark v r) (h : stepSPark s t v r = some s') : InvA s' := by
   obtain ⟨hk1, hk2, hk3, hk4, hk5, hk6, hk7, hk8⟩ := hk
-  obtain ⟨hr1, hr2, hr3, hr4, hr5, hr6, hr7⟩ := hr
+  obtain ⟨hr1, hr2, hr3, hr4, hr5, hr6, hr7, hr8⟩ := hr
   obtain ⟨h1, h2, h3, h4, h5, h6, h7, h8⟩ := hi
   unfold stepSPark at h
   repeat' split at h
@@ -246,7 +246,7 @@ theorem invA_sPark {s s' : State} {t : Nat} {v : Nat} {r : Nat} (hk : InvK s) (h
 
 theorem invA_rPark {s s' : State} {t : Nat} {r : Nat} (hk : InvK s) (hr : InvR s) (hi : InvA s) (hpc : s.pc t = .rPark r) (h : stepRPark s t r = some s') : InvA s' := by
   obtain ⟨hk1, hk2, hk3, hk4, hk5, hk6, hk7, hk8⟩ := hk
-  obtain ⟨hr1, hr2, hr3, hr4, hr5, hr6, hr7⟩ := hr
+  obtain ⟨hr1, hr2, hr3, hr4, hr5, hr6, hr7, hr8⟩ := hr
   obtain ⟨h1, h2, h3, h4, h5, h6, h7, h8⟩ := hi
   unfold stepRPark at h
   repeat' split at h
@@ -255,7 +255,7 @@ theorem invA_rPark {s s' : State} {t : Nat} {r : Nat} (hk : InvK s) (hr : InvR s
 
 theorem invA_closeS {s s' : State} {t : Nat} (hk : InvK s) (hr : InvR s) (hi : InvA s) (hpc : s.pc t = .hCloseS) (h : stepCloseS s t  = some s') : InvA s' := by
   obtain ⟨hk1, hk2, hk3, hk4, hk5, hk6, hk7, hk8⟩ := hk
-  obtain ⟨hr1, hr2, hr3, hr4, hr5, hr6, hr7⟩ := hr
+  obtain ⟨hr1, hr2, hr3, hr4, hr5, hr6, hr7, hr8⟩ := hr
   obtain ⟨h1, h2, h3, h4, h5, h6, h7, h8⟩ := hi
   unfold stepCloseS at h
   repeat' split at h
@@ -264,7 +264,7 @@ theorem invA_closeS {s s' : State} {t : Nat} (hk : InvK s) (hr : InvR s) (hi : I
 
 theorem invA_closeR {s s' : State} {t : Nat} (hk : InvK s) (hr : InvR s) (hi : InvA s) (hpc : s.pc t = .hCloseR) (h : stepCloseR s t  = some s') : InvA s' := by
   obtain ⟨hk1, hk2, hk3, hk4, hk5, hk6, hk7, hk8⟩ := hk
-  obtain ⟨hr1, hr2, hr3, hr4, hr5, hr6, hr7⟩ := hr
+  obtain ⟨hr1, hr2, hr3, hr4, hr5, hr6, hr7, hr8⟩ := hr
   obtain ⟨h1, h2, h3, h4, h5, h6, h7, h8⟩ := hi
   unfold stepCloseR at h
   repeat' split at h
@@ -306,13 +306,13 @@ theorem invA_adv {s s' : State} {t : Nat} (hk : InvK s) (hr : InvR s) (hi : InvA
   case h_28 =>
     simp at h; subst h
     obtain ⟨hk1, hk2, hk3, hk4, hk5, hk6, hk7, hk8⟩ := hk
-    obtain ⟨hr1, hr2, hr3, hr4, hr5, hr6, hr7⟩ := hr
+    obtain ⟨hr1, hr2, hr3, hr4, hr5, hr6, hr7, hr8⟩ := hr
     obtain ⟨h1, h2, h3, h4, h5, h6, h7, h8⟩ := hi
     wk_close
   case h_29 =>
     simp at h; subst h
     obtain ⟨hk1, hk2, hk3, hk4, hk5, hk6, hk7, hk8⟩ := hk
-    obtain ⟨hr1, hr2, hr3, hr4, hr5, hr6, hr7⟩ := hr
+    obtain ⟨hr1, hr2, hr3, hr4, hr5, hr6, hr7, hr8⟩ := hr
     obtain ⟨h1, h2, h3, h4, h5, h6, h7, h8⟩ := hi
     wk_close
   case h_30 => exact invA_closeS hk hr hi hpc h
@@ -320,7 +320,7 @@ theorem invA_adv {s s' : State} {t : Nat} (hk : InvK s) (hr : InvR s) (hi : InvA
   case h_32 =>
     simp at h; subst h
     obtain ⟨hk1, hk2, hk3, hk4, hk5, hk6, hk7, hk8⟩ := hk
-    obtain ⟨hr1, hr2, hr3, hr4, hr5, hr6, hr7⟩ := hr
+    obtain ⟨hr1, hr2, hr3, hr4, hr5, hr6, hr7, hr8⟩ := hr
     obtain ⟨h1, h2, h3, h4, h5, h6, h7, h8⟩ := hi
     wk_close
   case h_33 => simp at h; subst h; exact invA_hWake hk hr hi hpc
@@ -328,7 +328,7 @@ theorem invA_adv {s s' : State} {t : Nat} (hk : InvK s) (hr : InvR s) (hi : InvA
 set_option maxHeartbeats 1600000 in
 theorem invA_call {s s' : State} {t : Nat} {op : Op} (hk : InvK s) (hr : InvR s) (hi : InvA s) (h : stepCall s t op = some s') : InvA s' := by
   obtain ⟨hk1, hk2, hk3, hk4, hk5, hk6, hk7, hk8⟩ := hk
-  obtain ⟨hr1, hr2, hr3, hr4, hr5, hr6, hr7⟩ := hr
+  obtain ⟨hr1, hr2, hr3, hr4, hr5, hr6, hr7, hr8⟩ := hr
   obtain ⟨h1, h2, h3, h4, h5, h6, h7, h8⟩ := hi
   unfold stepCall at h
   split at h
@@ -343,7 +343,7 @@ theorem invA_call {s s' : State} {t : Nat} {op : Op} (hk : InvK s) (hr : InvR s)
 
 theorem invA_poll {s s' : State} {t : Nat} (hk : InvK s) (hr : InvR s) (hi : InvA s) (hb : Benign s t .poll) (h : stepPoll s t = some s') : InvA s' := by
   obtain ⟨hk1, hk2, hk3, hk4, hk5, hk6, hk7, hk8⟩ := hk
-  obtain ⟨hr1, hr2, hr3, hr4, hr5, hr6, hr7⟩ := hr
+  obtain ⟨hr1, hr2, hr3, hr4, hr5, hr6, hr7, hr8⟩ := hr
   obtain ⟨h1, h2, h3, h4, h5, h6, h7, h8⟩ := hi
   unfold stepPoll at h
   repeat' split at h
@@ -353,7 +353,7 @@ theorem invA_poll {s s' : State} {t : Nat} (hk : InvK s) (hr : InvR s) (hi : Inv
 
 theorem invA_dropFut {s s' : State} {t : Nat} (hk : InvK s) (hr : InvR s) (hi : InvA s) (hb : Benign s t .dropFut) (h : stepDropFut s t = some s') : InvA s' := by
   obtain ⟨hk1, hk2, hk3, hk4, hk5, hk6, hk7, hk8⟩ := hk
-  obtain ⟨hr1, hr2, hr3, hr4, hr5, hr6, hr7⟩ := hr
+  obtain ⟨hr1, hr2, hr3, hr4, hr5, hr6, hr7, hr8⟩ := hr
   obtain ⟨h1, h2, h3, h4, h5, h6, h7, h8⟩ := hi
   unfold stepDropFut at h
   repeat' split at h
@@ -363,7 +363,7 @@ theorem invA_dropFut {s s' : State} {t : Nat} (hk : InvK s) (hr : InvR s) (hi : 
 
 theorem invA_spurious {s s' : State} {t : Nat} (hk : InvK s) (hr : InvR s) (hi : InvA s) (h : stepSpurious s t = some s') : InvA s' := by
   obtain ⟨hk1, hk2, hk3, hk4, hk5, hk6, hk7, hk8⟩ := hk
-  obtain ⟨hr1, hr2, hr3, hr4, hr5, hr6, hr7⟩ := hr
+  obtain ⟨hr1, hr2, hr3, hr4, hr5, hr6, hr7, hr8⟩ := hr
   obtain ⟨h1, h2, h3, h4, h5, h6, h7, h8⟩ := hi
   unfold stepSpurious at h
   repeat' split at h
